@@ -12,6 +12,7 @@ Static clauses:
   ORDER    at lowering, record fields are pushed in declaration order (loop over case_def.fields) and the constructor index is
            the case's position in the type definition
   PANIC    no undischarged panic site in the data-encoding closure (integers beyond 64 bits must not panic)
+  INT (bytes)  a bignum's payload is the big-endian magnitude minus its *leading* zero bytes: no filter / retain / dedup / rev over them
 Not decided: the tag arithmetic and byte layout as values (a decoder-based comparison belongs to another family).
 """
 import re
